@@ -4,6 +4,7 @@ use super::common::*;
 use crate::core::*;
 use crate::gen::*;
 use crate::oracle::*;
+use crate::oracle::items;
 use proptest::prelude::*;
 use similar::DiffOp;
 use std::collections::HashMap;
@@ -51,6 +52,24 @@ fn check_case(c: &SeqCase, obs: &mut Obs) -> Verdict {
         Ok(o) => o,
         Err(p) => return Verdict::Fail(format!("patience capture: {}", p)),
     };
+    // the same diff over items whose lawful Hash sees only two bits: anchoring must not change
+    {
+        let oc: Vec<items::Coarse> = c.old.iter().map(|x| items::Coarse(*x)).collect();
+        let nc: Vec<items::Coarse> = c.new.iter().map(|x| items::Coarse(*x)).collect();
+        let alg = alg_of(c.alg);
+        match guard(|| similar::capture_diff(alg, &oc[..], c.old_r(), &nc[..], c.new_r())) {
+            Ok(o) => {
+                let mut c0 = c.clone();
+                c0.mode = 0;
+                match capture(&c0, None) {
+                    Ok(b) if b == o => {}
+                    Ok(b) => return Verdict::Fail(format!("patience over coarse-hash items gives {:?}, over u32 items {:?}", o, b)),
+                    Err(p) => return Verdict::Fail(format!("patience capture: {}", p)),
+                }
+            }
+            Err(p) => return Verdict::Fail(format!("patience over coarse-hash items: {}", p)),
+        }
+    }
     let mut pairs_raw = vec![];
     for e in &ev {
         if let Ev::Equal(o, n, l) = *e {
